@@ -105,6 +105,9 @@ def decode(body, sblock, value, facts):
         if ps[0] == "call" and callee_name(ps) == "branch" and ps[2]:
             return Lit("variant", ps[2][0], None, names, sblock, t, value, adt)
         return Lit("variant", subj, None, names, sblock, t, value, adt)
+    # `match x { 2 => .., 3 => .., _ => .. }` on an integer: the value edge asserts x == value
+    if value is not None and term.j.get("discr_ty") in ("usize", "u32", "u64", "i32", "i64", "u8", "isize", "u16", "i16", "i8"):
+        return Lit("cmp", ("binop", "Eq", s, ("const", "int", value, term.j.get("discr_ty"))), True, None, sblock, t, value)
     return Lit("other", s, None, None, sblock, t, value)
 
 
